@@ -72,6 +72,19 @@ Proof.
   intros; now apply remove_sole_owner_frees.
 Qed.
 
+(* Kernel::close (every path except the FIN/Linger path of an established stream
+   with nothing unread, which the model flags with k_bad): the socket leaves the
+   table and both indexes at once; closing a listener also removes every child
+   still waiting in its accept queue (they share the listener's key) *)
+Theorem close_releases : forall k fd, sock_wf k -> k_bad (close k fd) = k_bad k ->
+  (get k fd <> None -> k_bad k = false ->
+   get (close k fd) fd = None /\
+   (forall key, ~ In fd (find_by_bind (close k fd) key)) /\
+   (forall l r, find_connection (close k fd) l r <> Some fd)) /\
+  (forall s b ready, get k fd = Some s -> s_ty s = Stream -> s_tcb s = None -> s_listen s = Some (b, ready) ->
+     forall c, In c ready -> get (close k fd) c = None).
+Proof. exact close_releases_lemma. Qed.
+
 (* ---- demux -------------------------------------------------------------------------------- *)
 (* a datagram goes to the first socket bound to (dst addr, dst port), else to
    the first bound to (wildcard, dst port), else nowhere; it is queued only if
@@ -199,6 +212,7 @@ Print Assumptions port0_free_everywhere.
 Print Assumptions port0_none_iff_exhausted.
 Print Assumptions port0_first_free_from_cursor.
 Print Assumptions close_frees.
+Print Assumptions close_releases.
 Print Assumptions udp_demux.
 Print Assumptions tcp_demux_rule.
 Print Assumptions fabric_route.
